@@ -198,3 +198,8 @@ impl<K: KeyStr, V: Dump> Dump for BTreeMap<K, V> {
         dump_map(self.iter())
     }
 }
+impl<T: ToTokens, P: ToTokens> Dump for syn::punctuated::Punctuated<T, P> {
+    fn dump(&self) -> Value {
+        toks(self)
+    }
+}
